@@ -104,10 +104,10 @@ func (c *ColArr[T]) DecodeColumn(r *Reader, rows int) error {
 	if err := c.Offsets.DecodeColumn(r, rows); err != nil {
 		return errors.Wrap(err, "read offsets")
 	}
-	var size int
-	if l := len(c.Offsets); l > 0 {
-		// Pick last offset as total size of "elements" column.
-		size = int(c.Offsets[l-1])
+	// Last offset is total size of "elements" column.
+	size, err := checkOffsets(c.Offsets)
+	if err != nil {
+		return errors.Wrap(err, "array offsets")
 	}
 	if err := checkRows(size); err != nil {
 		return errors.Wrap(err, "array size")
@@ -158,4 +158,20 @@ func (c *ColArr[T]) Result(column string) ResultColumn {
 // Results return Results containing single column.
 func (c *ColArr[T]) Results(column string) Results {
 	return Results{c.Result(column)}
+}
+
+// checkOffsets checks that cumulative offsets never decrease, so every row
+// is a valid range of nested column, and returns size of nested column.
+func checkOffsets(offsets ColUInt64) (int, error) {
+	var prev uint64
+	for i, v := range offsets {
+		if v < prev {
+			return 0, errors.Errorf("offset [%d] %d is less than previous %d", i, v, prev)
+		}
+		prev = v
+	}
+	if prev > maxRowsInBLock {
+		return 0, errors.Errorf("%d is suspiciously big, maximum is %d (preventing possible OOM)", prev, maxRowsInBLock)
+	}
+	return int(prev), nil
 }
